@@ -321,11 +321,34 @@ def mk_index(idx):
     return tuple(out)
 
 
-def raw_array(v):
-    """The array eager access sees, as worked out by the harness (props/c12.py): the unpacked values
-    and their data type."""
-    flat = v.get("exp_flat", v["flat"])
-    dt = np.dtype(v.get("exp_dtype", "i8"))
+def optkey(o):
+    o = o or {}
+    return ("m" if o.get("mask", True) else "-") + ("u" if o.get("unpack", True) else "-")
+
+
+def optkw(o):
+    o = o or {}
+    return {"mask": bool(o.get("mask", True)), "unpack": bool(o.get("unpack", True))}
+
+
+def flags_of(d):
+    """(mask, unpack) components of the file array(s) under a Data object, or None."""
+    src = d.source(None)
+    for _ in range(4):
+        if src is None or hasattr(src, "get_unpack"):
+            break
+        src = src.source(None) if hasattr(src, "source") else None
+    if src is None or not hasattr(src, "get_unpack"):
+        return None
+    return [bool(src.get_mask()), bool(src.get_unpack())]
+
+
+def raw_array(v, key="mu"):
+    """The array eager access sees under the read options `key` (the reference worked out for
+    props/c12.py by mode "unpack"): the values and their data type."""
+    e = (v.get("exp") or {}).get(key)
+    flat = e["flat"] if e else v.get("exp_flat", v["flat"])
+    dt = np.dtype(e["dtype"] if e else v.get("exp_dtype", "i8"))
     vals = np.array([0 if x is None else x for x in flat], dtype=dt).reshape(v["shape"])
     mask = np.array([x is None for x in flat], dtype=bool).reshape(v["shape"])
     if mask.any():
@@ -393,9 +416,10 @@ def do_ops(p):
         row = {"i": c["i"]}
         try:
             spec = files[c["file"]]
-            key = (c["file"], c["backend"])
+            ok_ = optkey(c.get("opts"))
+            key = (c["file"], c["backend"], ok_)
             if key not in cache:
-                fields = cfdm.read(paths[c["file"]], netcdf_backend=c["backend"])
+                fields = cfdm.read(paths[c["file"]], netcdf_backend=c["backend"], **optkw(c.get("opts")))
                 cache[key] = {f.nc_get_variable(): f for f in fields}
                 row["read_log"] = [e for e in take_log() if e["e"] == "get"]
                 row["read_open"] = open_nc(scratch)
@@ -413,11 +437,12 @@ def do_ops(p):
                     f = fields[hcell["var"]]
                     heap.append(f.data.copy())
                     v = byname[hcell["var"]]
-                    eager.append(cfdm.Data(raw_array(v), fill_value=fill_of(v.get("dtype", "i8"))))
+                    eager.append(cfdm.Data(raw_array(v, ok_), fill_value=fill_of(v.get("dtype", "i8"))))
             row["start"] = [where_is(d) for d in heap]
             row["classes"] = sorted(set(type(d.source()).__name__ for d in heap))
             take_log()
             # Data.dtype while the data are on disk (asking for it must not fetch anything)
+            row["start_flags"] = [flags_of(d) for d in heap]
             row["start_dtype"] = [str(d.dtype) for d in heap]
             row["dtype_log"] = [e for e in take_log() if e["e"] == "get"]
             steps = []
@@ -441,6 +466,7 @@ def do_ops(p):
                 steps.append(st)
             row["steps"] = steps
             row["final"] = [where_is(d) for d in heap]
+            row["final_flags"] = [flags_of(d) for d in heap]
         except Exception as ex:
             import traceback
             row["harness_err"] = type(ex).__name__ + ": " + str(ex)[:300] + " | " + traceback.format_exc()[-600:]
@@ -617,6 +643,115 @@ def raw_values(path):
     return out
 
 
+def eager_reference(path, m, u):
+    """Every non-string variable of the dataset, read raw with netCDF4-python (no masking, no scaling) into
+    memory and then presented by netcdf_indexer(mask=, unpack=) applied to that whole in-memory array."""
+    nc = netCDF4.Dataset(path, "r")
+    out = {}
+
+    def walk(g, prefix):
+        for name, var in g.variables.items():
+            if var.dtype is str or var.dtype.kind not in "iuf":
+                continue
+            try:
+                var.set_auto_maskandscale(False)
+                raw = np.array(var[...])
+                attrs = {a: var.getncattr(a) for a in var.ncattrs()}
+                with np.errstate(all="ignore"):
+                    ref = cfdm.netcdf_indexer(raw, mask=m, unpack=u, attributes=attrs)[...]
+                out[prefix + name] = fp_array(ref)
+            except Exception:
+                pass
+        for gn, gg in g.groups.items():
+            walk(gg, prefix + gn + "/")
+
+    walk(nc, "")
+    nc.close()
+    return out
+
+
+def first_axis_index(f):
+    if not f.ndim:
+        return None
+    n = f.shape[0]
+    return (slice(0, max(1, n // 2)),) + (slice(None),) * (f.ndim - 1)
+
+
+def options_sweep(path, scratch, combos=((False, True), (True, False), (False, False)),
+                  backends=(None, "netCDF4", "h5netcdf")):
+    """cfdm.read(mask=, unpack=) with the three non-default combinations, every backend: what copies,
+    subspaces and in-memory copies show against the uncopied arrays, against a field brought into memory
+    from a fresh read, and against the eager reference under the same options."""
+    res = {}
+    for m, u in combos:
+        key = optkey({"mask": m, "unpack": u})
+        ref = eager_reference(path, m, u)
+        res[key] = {}
+        for be in backends:
+            e = {"bad": [], "dtypes": [], "n": 0}
+            try:
+                fields = sorted(cfdm.read(path, netcdf_backend=be, mask=m, unpack=u),
+                                key=lambda f: str(f.nc_get_variable(None)))
+                fresh = sorted(cfdm.read(path, netcdf_backend=be, mask=m, unpack=u),
+                               key=lambda f: str(f.nc_get_variable(None)))
+                take_log()
+                fps = []
+                for f, f2 in zip(fields, fresh):
+                    fv = f.nc_get_variable(None)
+                    # copies made BEFORE anything of the field has been fetched
+                    g = f.copy()
+                    idx = first_axis_index(f)
+                    h = f[idx] if idx is not None else None
+                    for (label, ncvar, d), (_, _, dg) in zip(data_objects(f), data_objects(g)):
+                        e["n"] += 1
+                        fl = flags_of(d)
+                        dc = d.copy()
+                        flc = flags_of(dc)
+                        dt0 = d.dtype
+                        if dt0.kind in "iuf":
+                            e["dtypes"].append([ncvar, str(dt0)])
+                        a_copy = fp_array(dc.array)
+                        a_fcopy = fp_array(dg.array)
+                        a_orig = fp_array(d.array)
+                        if fl is not None and fl != [m, u]:
+                            e["bad"].append(["flags-after-read", fv, label, ncvar, fl])
+                        if flc is not None and flc != [m, u]:
+                            e["bad"].append(["flags-of-copy", fv, label, ncvar, flc])
+                        if flags_of(dg) is not None and flags_of(dg) != [m, u]:
+                            e["bad"].append(["flags-of-field-copy", fv, label, ncvar, flags_of(dg)])
+                        if a_copy != a_orig or a_fcopy != a_orig:
+                            e["bad"].append(["copy-differs", fv, label, ncvar, a_orig, a_copy, a_fcopy])
+                        if dt0.kind in "iuf" and str(dt0) != a_orig[0]:
+                            e["bad"].append(["declared-dtype", fv, label, ncvar, str(dt0), a_orig[0]])
+                        if ncvar in ref and not d.get_compression_type() and list(d.shape) == ref[ncvar][1] \
+                                and a_orig != ref[ncvar]:
+                            e["bad"].append(["eager-reference-differs", fv, label, ncvar, a_orig, ref[ncvar]])
+                    try:
+                        if not (f.equals(g) and g.equals(f)):
+                            e["bad"].append(["copy-not-equal", fv])
+                        # the same subspace of a field brought into memory from a fresh read (nothing copied
+                        # before its data were fetched)
+                        em = realise_field(f2)
+                        if h is not None:
+                            if fp_field(h) != fp_field(em[idx]):
+                                e["bad"].append(["subspace-differs", fv, str(idx)])
+                            if not (h.equals(em[idx]) and em[idx].equals(h)):
+                                e["bad"].append(["subspace-not-equal", fv, str(idx)])
+                        if not (f.equals(em) and em.equals(f)):
+                            e["bad"].append(["memory-copy-not-equal", fv])
+                    except Exception as ex:
+                        e["bad"].append(["raised", fv, type(ex).__name__ + ": " + str(ex)[:150]])
+                    fps.append(fp_field(f))
+                e["fp"] = hashlib.sha1(json.dumps(sorted(fps, key=lambda x: json.dumps(x, sort_keys=True, default=str)),
+                                                  sort_keys=True, default=str).encode()).hexdigest()
+                e["open"] = open_nc(scratch)
+                take_log()
+            except Exception as ex:
+                e["err"] = type(ex).__name__ + ": " + str(ex)[:200]
+            res[key][str(be)] = e
+    return res
+
+
 def do_read(p):
     scratch = p["scratch"]
     instrument()
@@ -771,8 +906,9 @@ def do_fieldops(p):
                 build_file(c["spec"], path)
                 built[key] = path
             path = built[key]
-            f = cfdm.read(path, netcdf_backend=c["backend"])[0]
-            g = realise_field(cfdm.read(path, netcdf_backend=c.get("backend2", c["backend"]))[0])
+            kw = optkw(c.get("opts"))
+            f = cfdm.read(path, netcdf_backend=c["backend"], **kw)[0]
+            g = realise_field(cfdm.read(path, netcdf_backend=c.get("backend2", c["backend"]), **kw)[0])
             take_log()
             lazy, eager = [f], [g]
             steps = []
@@ -845,39 +981,65 @@ def do_fieldops(p):
 
 # ------------------------------------------------------------------ mode: unpack
 def do_unpack(p):
-    """The eager reference for packed variables: cfdm's own netcdf_indexer applied to the WHOLE array in
-    memory (a numpy array and an attribute dictionary: no file, no backend, no laziness, no subspace).
-    Which data type and values unpacking should give is C07's subject; C12's is that lazy access through
-    the file arrays gives this."""
+    """The eager reference for the variables of the histories, under each combination of the read
+    options: cfdm's own netcdf_indexer(mask=, unpack=) applied to the WHOLE array in memory (a numpy array
+    holding the stored values, fill values included, and an attribute dictionary: no file, no backend, no
+    laziness, no subspace, no copy).  Which data type and values unpacking should give is C07's subject;
+    C12's is that lazy access through the file arrays gives this."""
     for k, v in enumerate(p["vars"]):
-        row = {"i": k}
+        row = {"i": k, "opt": {}}
         try:
             dt = np.dtype(v.get("dtype", "i8"))
-            a = np.array([0 if x is None else x for x in v["flat"]], dtype=dt).reshape(v["shape"])
+            fill = fill_of(v.get("dtype", "i8"))
+            a = np.array([fill if x is None else x for x in v["flat"]], dtype=dt).reshape(v["shape"])
             pack = v.get("pack") or {}
-            attrs = {}
+            attrs = {"_FillValue": np.array(fill, dtype=dt)[()]}
             if pack.get("unsigned"):
                 attrs["_Unsigned"] = "true"
             if pack.get("scale"):
                 attrs["scale_factor"] = np.array(pack["scale"][1], dtype=pack["scale"][0])[()]
             if pack.get("offset"):
                 attrs["add_offset"] = np.array(pack["offset"][1], dtype=pack["offset"][0])[()]
-            with np.errstate(all="ignore"):
-                out = cfdm.netcdf_indexer(a, mask=False, unpack=True, attributes=attrs)[...]
-            out = np.asanyarray(out)
-            row["dtype"] = out.dtype.str[1:]
-            row["flat"] = [x if isinstance(x, int) else (int(x) if float(x).is_integer() else repr(x))
-                           for x in out.ravel().tolist()]
-            row["shape"] = list(out.shape)
+            for m in (True, False):
+                for u in (True, False):
+                    with np.errstate(all="ignore"):
+                        out = cfdm.netcdf_indexer(a.copy(), mask=m, unpack=u, attributes=dict(attrs))[...]
+                    out = np.ma.asanyarray(out)
+                    mk = np.ma.getmaskarray(out).ravel().tolist()
+                    vals = out.data.ravel().tolist()
+                    row["opt"][optkey({"mask": m, "unpack": u})] = {
+                        "dtype": out.dtype.str[1:], "shape": list(out.shape),
+                        "flat": [None if q else (x if isinstance(x, int) else (int(x) if float(x).is_integer() else repr(x)))
+                                 for x, q in zip(vals, mk)]}
         except Exception as ex:
             row["err"] = type(ex).__name__ + ": " + str(ex)[:200]
         print(json.dumps(row), flush=True)
 
 
+def do_sweep(p):
+    """Dataset cases under non-default read options (one worker per dataset and set of combinations)."""
+    scratch = p["scratch"]
+    instrument()
+    for c in p["cases"]:
+        row = {"i": c["i"]}
+        try:
+            path = os.path.join(scratch, f"c12s_{os.getpid()}_{c['i']}.nc")
+            build_file(c["spec"], path)
+            row["roles"] = raw_roles(path)
+            take_log()
+            row["options"] = options_sweep(path, scratch, [tuple(x) for x in c["combos"]],
+                                           tuple(c.get("backends", (None, "netCDF4", "h5netcdf"))))
+            row["open_end"] = open_nc(scratch)
+        except Exception as ex:
+            import traceback
+            row["harness_err"] = type(ex).__name__ + ": " + str(ex)[:300] + " | " + traceback.format_exc()[-800:]
+        print(json.dumps(row, default=str), flush=True)
+
+
 def main():
     p = json.load(sys.stdin)
     cfdm.log_level("DISABLE")
-    {"ops": do_ops, "read": do_read, "fieldops": do_fieldops, "unpack": do_unpack}[p["mode"]](p)
+    {"ops": do_ops, "read": do_read, "fieldops": do_fieldops, "unpack": do_unpack, "sweep": do_sweep}[p["mode"]](p)
 
 
 main()
